@@ -61,12 +61,12 @@ def run(ctx):
         try:
             exe = lib.build_driver("c02_projdata")
             t1 = os.path.join(ctx.work, "rand.ndjson")
-            rc1, o1 = lib.run_driver(exe, ["rand", t1, 96 if q else 520, 110 if q else 260, scratch], env=env, timeout=900, allow_fail=True)
+            rc1, o1 = lib.run_driver(exe, ["rand", t1, 96 if q else 360, 110 if q else 260, scratch], env=env, timeout=900, allow_fail=True)
             t2 = os.path.join(ctx.work, "exh.ndjson")
             rc2, o2 = lib.run_driver(exe, ["exh", t2, 2 if q else 1000, scratch], env=env, timeout=900, allow_fail=True)
             # one more index (beyond the property's statement): MultipleProjData / DynamicProjData
             t3 = os.path.join(ctx.work, "multi.ndjson")
-            rc3, o3 = lib.run_driver(exe, ["multi", t3, 24 if q else 160, 40 if q else 80, scratch], env=env, timeout=900, allow_fail=True)
+            rc3, o3 = lib.run_driver(exe, ["multi", t3, 24 if q else 100, 40 if q else 60, scratch], env=env, timeout=900, allow_fail=True)
             traces = [t for t in (t1, t2, t3) if os.path.exists(t) and os.path.getsize(t) > 0]
             # a crash outside a call on the store (exit 3, e.g. a corrupted heap found later) is a tooling failure UNLESS the
             # lines recorded before it already contain calls the specification cannot explain (then those are reported)
@@ -80,13 +80,20 @@ def run(ctx):
                 e2 = dict(env)
                 e2["C02_NO_OORSEG"] = "1"
                 e2["VERIF_SEED"] = str(ctx.seed + 1000)
-                rc, out = lib.run_driver(exs, ["rand", san_trace, 120, 120, scratch], env=e2, timeout=900, allow_fail=True)
+                e2["VERIF_STDERR"] = "1"      # keep the sanitizer's report
+                rc, out = lib.run_driver(exs, ["rand", san_trace, 100, 120, scratch], env=e2, timeout=900, allow_fail=True)
                 if rc not in (0, 77, 78):
                     raise lib.ModelFailure("sanitized driver failed rc=%d\n%s" % (rc, out[-2000:]))
                 if rc != 0:
                     # sanitizer report: keep it with the trace; the truncated trace ends in the call that died
-                    with open(san_trace, "a") as f:
-                        f.write(json.dumps({"e": "Abort", "sanitizer": out[-1500:]}) + "\n")
+                    # (a partial last line - the process died while writing - is dropped first)
+                    data = open(san_trace, "rb").read() if os.path.exists(san_trace) else b""
+                    data = data[: data.rfind(b"\n") + 1]
+                    i = out.find("ERROR: AddressSanitizer")
+                    i = out.find("runtime error") if i < 0 else i
+                    with open(san_trace, "wb") as f:
+                        f.write(data)
+                        f.write((json.dumps({"e": "Abort", "sanitizer": out[max(i, 0):][:1500] if i >= 0 else out[-1500:]}) + "\n").encode())
                 traces.append(san_trace)
         finally:
             shutil.rmtree(scratch, ignore_errors=True)
